@@ -154,8 +154,7 @@ class SeenSet:
         if self.all_seen:
             return True
         if not assignment:
-            self.all_seen = True
-            self.seen.append(assignment)
+            # Only an empty constraint covers the empty assignment; coverage is recorded by `add` once it is known.
             return False
         for constraint in self.seen:
             if all(assignment[k] == v if k in assignment else False for k, v in constraint.items()):
@@ -256,6 +255,16 @@ class IndexedCache:
         # if not seen:
         #     self.seen_set.add(assignment)
         return seen
+
+    def mark_complete(self, assignment: Dict) -> None:
+        """
+        Record that every output matching the assignment has been inserted, when the assignment binds none of the
+        cache keys this means the cache now covers every assignment.
+
+        :param assignment: The assignment under which the cached expression was completely evaluated.
+        """
+        if not any(k in assignment for k in self.keys):
+            self.seen_set.add({})
 
     def __getitem__(self, key: Any):
         return self.flat_cache[key]
